@@ -4,6 +4,9 @@
 //! Case lines (lists comma separated, `-` = empty list):
 //!   get <dims> <idx> | at <vec|slice|new|read> <dims> <idx> | ctor <vec|slice|new|read> <dims> <len> | iter <dims>
 //!   eq <dimsA> <dimsB> <dataA> <dataB> | write <i64|str> <dims> <data> | rt <i64|str> <chunk> <dims> <data>
+//!   h <D> ; op ; op ; ...   a history over four `Tensor<i64, D>` variables (slots 0..3), one observation per op:
+//!       mk s <dims> <start> (from_vec(dims, start..)) | cl s r (s = r.clone()) | cf s r (s.clone_from(&r)) | eq s r |
+//!       dims s | dim s i | get s <idx> | rd s <idx> | wr s <idx> v (then all cells) | it s | w s (Writable bytes)
 #[path = "../../common/mod.rs"]
 mod common;
 use common::*;
@@ -458,10 +461,212 @@ fn run_d<const D: usize>(toks: &[&str]) -> String {
     }
 }
 
+/// One history `h <D> ; op ; …` over four tensor variables.  Any op that refers to an empty variable, has a list of
+/// the wrong length or is malformed makes the whole line INVALID (the shrinker may produce such lines).
+fn run_hist<const D: usize>(ops: &[&str]) -> String {
+    let mut slots: [Option<Tensor<i64, D>>; 4] = [None, None, None, None];
+    let mut raw: Vec<String> = Vec::new();
+    if ops.is_empty() {
+        return INVALID.to_string();
+    }
+    let slot = |t: &str| -> Option<usize> { t.parse::<usize>().ok().filter(|&k| k < 4) };
+    for op in ops {
+        let toks: Vec<&str> = op.split_whitespace().collect();
+        if toks.is_empty() {
+            return INVALID.to_string();
+        }
+        let o: String = match (toks[0], toks.len()) {
+            ("mk", 4) => {
+                let (s, dims_v, start) = match (slot(toks[1]), parse_usizes(toks[2]), toks[3].parse::<i64>()) {
+                    (Some(a), Some(b), Ok(c)) => (a, b, c),
+                    _ => return INVALID.to_string(),
+                };
+                let dims = match arr::<D>(&dims_v) {
+                    Some(d) => d,
+                    None => return INVALID.to_string(),
+                };
+                if start.abs() > 1_000_000_000_000 {
+                    return INVALID.to_string();
+                }
+                let n = dims_v.iter().fold(1u128, |a, &d| a.saturating_mul(d as u128));
+                if !dims_v.contains(&0) && n > 100000 {
+                    return INVALID.to_string();
+                }
+                let data: Vec<i64> = (0..n as i64).map(|k| start + k).collect();
+                match catch(|| Tensor::<i64, D>::from_vec(dims, data)) {
+                    Ok(t) => {
+                        slots[s] = Some(t);
+                        "ok".to_string()
+                    }
+                    Err(e) => pc(Err(e)),
+                }
+            }
+            ("cl", 3) => {
+                let (s, r) = match (slot(toks[1]), slot(toks[2])) {
+                    (Some(a), Some(b)) => (a, b),
+                    _ => return INVALID.to_string(),
+                };
+                let src = match &slots[r] {
+                    Some(t) => t,
+                    None => return INVALID.to_string(),
+                };
+                match catch(|| src.clone()) {
+                    Ok(t) => {
+                        slots[s] = Some(t);
+                        "ok".to_string()
+                    }
+                    Err(e) => pc(Err(e)),
+                }
+            }
+            ("cf", 3) => {
+                let (s, r) = match (slot(toks[1]), slot(toks[2])) {
+                    (Some(a), Some(b)) if a != b => (a, b),
+                    _ => return INVALID.to_string(),
+                };
+                if slots[s].is_none() || slots[r].is_none() {
+                    return INVALID.to_string();
+                }
+                let src = slots[r].take().unwrap();
+                let res = {
+                    let dst = slots[s].as_mut().unwrap();
+                    catch(|| dst.clone_from(&src))
+                };
+                slots[r] = Some(src);
+                match res {
+                    Ok(()) => "ok".to_string(),
+                    Err(e) => pc(Err(e)),
+                }
+            }
+            ("eq", 3) => {
+                let (s, r) = match (slot(toks[1]), slot(toks[2])) {
+                    (Some(a), Some(b)) => (a, b),
+                    _ => return INVALID.to_string(),
+                };
+                let (t, u) = match (&slots[s], &slots[r]) {
+                    (Some(t), Some(u)) => (t, u),
+                    _ => return INVALID.to_string(),
+                };
+                pc(catch(|| {
+                    let e = t == u;
+                    if (t != u) == e || (u == t) != e {
+                        "EQ-INCONSISTENT".to_string()
+                    } else {
+                        e.to_string()
+                    }
+                }))
+            }
+            ("dims", 2) => {
+                let t = match slot(toks[1]).and_then(|s| slots[s].as_ref()) {
+                    Some(t) => t,
+                    None => return INVALID.to_string(),
+                };
+                pc(catch(|| show_list(t.dims().iter())))
+            }
+            ("dim", 3) => {
+                let i: usize = match toks[2].parse() {
+                    Ok(i) => i,
+                    Err(_) => return INVALID.to_string(),
+                };
+                let t = match slot(toks[1]).and_then(|s| slots[s].as_ref()) {
+                    Some(t) => t,
+                    None => return INVALID.to_string(),
+                };
+                pc(catch(|| t.dim(i).to_string()))
+            }
+            ("get", 3) | ("rd", 3) => {
+                let idx = match parse_usizes(toks[2]).and_then(|v| arr::<D>(&v)) {
+                    Some(i) => i,
+                    None => return INVALID.to_string(),
+                };
+                let t = match slot(toks[1]).and_then(|s| slots[s].as_ref()) {
+                    Some(t) => t,
+                    None => return INVALID.to_string(),
+                };
+                if toks[0] == "get" {
+                    pc(catch(|| t.get_index(idx).to_string()))
+                } else {
+                    pc(catch(|| t[idx].to_string()))
+                }
+            }
+            ("wr", 4) => {
+                let idx = match parse_usizes(toks[2]).and_then(|v| arr::<D>(&v)) {
+                    Some(i) => i,
+                    None => return INVALID.to_string(),
+                };
+                let v: i64 = match toks[3].parse() {
+                    Ok(v) => v,
+                    Err(_) => return INVALID.to_string(),
+                };
+                let t = match slot(toks[1]).and_then(|s| slots[s].as_mut()) {
+                    Some(t) => t,
+                    None => return INVALID.to_string(),
+                };
+                let before: Vec<i64> = t.iter().cloned().collect();
+                match catch(|| {
+                    t[idx] = v;
+                }) {
+                    Ok(()) => show_list(t.iter()),
+                    Err(e) => {
+                        let e = pc(Err(e));
+                        // a panicking write must not have changed anything
+                        if t.iter().cloned().collect::<Vec<i64>>() != before {
+                            format!("{}+changed{}", e, show_list(t.iter()))
+                        } else {
+                            e
+                        }
+                    }
+                }
+            }
+            ("it", 2) => {
+                let t = match slot(toks[1]).and_then(|s| slots[s].as_mut()) {
+                    Some(t) => t,
+                    None => return INVALID.to_string(),
+                };
+                pc(catch(|| {
+                    let a: Vec<i64> = t.iter().cloned().collect();
+                    let b: Vec<i64> = t.iter_mut().map(|x| *x).collect();
+                    let c: Vec<i64> = t.clone().into_iter().collect();
+                    if a != b || a != c {
+                        "ITER-VARIANTS-DIFFER".to_string()
+                    } else {
+                        show_list(a.iter())
+                    }
+                }))
+            }
+            ("w", 2) => {
+                let t = match slot(toks[1]).and_then(|s| slots[s].as_ref()) {
+                    Some(t) => t,
+                    None => return INVALID.to_string(),
+                };
+                pc(catch(|| escape(&write_bytes(t))))
+            }
+            _ => return INVALID.to_string(),
+        };
+        raw.push(o);
+    }
+    let view: Vec<String> = raw.iter().map(|o| pv(o)).collect();
+    out2(&raw.join(";"), &view.join(";"))
+}
+
 fn run_case(line: &str) -> String {
     let toks: Vec<&str> = line.split_whitespace().collect();
     if toks.len() < 2 {
         return INVALID.to_string();
+    }
+    if toks[0] == "h" {
+        let parts: Vec<&str> = line.split(';').map(|p| p.trim()).collect();
+        let hdr: Vec<&str> = parts[0].split_whitespace().collect();
+        if hdr.len() != 2 {
+            return INVALID.to_string();
+        }
+        return match hdr[1] {
+            "0" => run_hist::<0>(&parts[1..]),
+            "1" => run_hist::<1>(&parts[1..]),
+            "2" => run_hist::<2>(&parts[1..]),
+            "3" => run_hist::<3>(&parts[1..]),
+            "4" => run_hist::<4>(&parts[1..]),
+            _ => INVALID.to_string(),
+        };
     }
     // the rank is the length of the (first) dims list
     let dims_tok = match toks[0] {
@@ -782,6 +987,173 @@ fn gen(args: &Args, emit: &mut dyn FnMut(String), st: &mut Stats) {
                 }
             }
         }
+    }
+
+    // (5) histories over several tensor variables: clone(), clone_from (same shape / another shape with the same
+    //     element count / another count), then shape, ==, indexing (valid and out of range per dimension, for the
+    //     source's AND for the overwritten target's old shape), iteration, writing, Writable output on the copy,
+    //     and the source afterwards.
+    let hist_shapes = |rank: usize, thorough: bool| -> Vec<Vec<usize>> {
+        match rank {
+            0 => vec![vec![]],
+            1 => shapes(1, 1, if thorough { 8 } else { 6 }),
+            2 => shapes(2, 1, if thorough { 5 } else { 4 }),
+            3 => shapes(3, 1, if thorough { 4 } else { 3 }),
+            _ => shapes(4, 1, if thorough { 3 } else { 2 }),
+        }
+    };
+    // probes of variable `v` against a shape: last valid index, a random valid one, and per dimension an index
+    // that is out of range there (by 0 or 1 beyond the extent) with the other coordinates valid
+    fn probes(v: usize, shape: &[usize], rng: &mut SplitMix64, writes: bool, ops: &mut Vec<String>) {
+        let rank = shape.len();
+        let last: Vec<usize> = shape.iter().map(|d| d - 1).collect();
+        let rnd: Vec<usize> = shape.iter().map(|&d| rng.below(d as u64) as usize).collect();
+        ops.push(format!("rd {} {}", v, join(&last)));
+        ops.push(format!("get {} {}", v, join(&rnd)));
+        ops.push(format!("rd {} {}", v, join(&rnd)));
+        for k in 0..rank {
+            let mut j: Vec<usize> = shape.iter().map(|&d| rng.below(d as u64) as usize).collect();
+            j[k] = shape[k] + rng.below(2) as usize;
+            ops.push(format!("{} {} {}", if rng.chance(1, 2) { "rd" } else { "get" }, v, join(&j)));
+            if writes {
+                ops.push(format!("wr {} {} -3", v, join(&j)));
+            }
+        }
+        ops.push(format!("dim {} {}", v, rng.below(rank as u64 + 2)));
+    }
+    for rank in 0..=4usize {
+        let all = hist_shapes(rank, thorough);
+        for a in &all {
+            let na: usize = a.iter().product();
+            // clone(): copy, compare, probe, write to the copy, the original is unchanged
+            {
+                let mut ops: Vec<String> = vec![format!("mk 0 {} 10", join(a)), "cl 1 0".into(), "dims 1".into(), "eq 1 0".into(), "it 1".into()];
+                probes(1, a, &mut rng, true, &mut ops);
+                let wi: Vec<usize> = a.iter().map(|&d| rng.below(d as u64) as usize).collect();
+                ops.push(format!("wr 1 {} -7", join(&wi)));
+                ops.push("it 0".into());
+                ops.push("eq 0 1".into());
+                ops.push("w 1".into());
+                ops.push("cl 0 1".into());
+                ops.push("eq 0 1".into());
+                emit(format!("h {} ; {}", rank, ops.join(" ; ")));
+                st.bump("hist_clone");
+            }
+            for b in &all {
+                let nb: usize = b.iter().product();
+                let class = if a == b { "same_shape" } else if na == nb { "same_count_other_shape" } else { "other_count" };
+                // the interesting class is enumerated completely, the other two are sampled for larger ranks
+                if class == "other_count" && rank >= 3 && !thorough && !rng.chance(1, 4) {
+                    continue;
+                }
+                let mut ops: Vec<String> =
+                    vec![format!("mk 0 {} 100", join(a)), format!("mk 1 {} 0", join(b)), "cf 0 1".into(), "dims 0".into(), "eq 0 1".into(), "it 0".into()];
+                // the target must now answer like the source (its old shape `a` is gone)
+                probes(0, b, &mut rng, true, &mut ops);
+                if a != b {
+                    probes(0, a, &mut rng, false, &mut ops);
+                }
+                for k in 0..rank {
+                    ops.push(format!("dim 0 {}", k));
+                }
+                ops.push("w 0".into());
+                let wi: Vec<usize> = b.iter().map(|&d| rng.below(d as u64) as usize).collect();
+                ops.push(format!("wr 0 {} -9", join(&wi)));
+                ops.push("it 1".into());
+                ops.push("eq 0 1".into());
+                // … and back: the source takes the modified copy
+                ops.push("cf 1 0".into());
+                ops.push("eq 1 0".into());
+                ops.push("it 1".into());
+                emit(format!("h {} ; {}", rank, ops.join(" ; ")));
+                st.bump(&format!("hist_clone_from_{}", class));
+            }
+        }
+    }
+    // random histories: four variables, every op kind, clone_from chains between variables of different shapes
+    let n_rand = if thorough { 60000 } else { 2500 };
+    for _ in 0..n_rand {
+        let rank = 1 + rng.below(3) as usize;
+        let hi = if rank == 1 { 6 } else if rank == 2 { 4 } else { 3 };
+        // a small pool of shapes, biased towards equal element counts
+        let base: Vec<usize> = (0..rank).map(|_| 1 + rng.below(hi) as usize).collect();
+        let mut pool: Vec<Vec<usize>> = vec![base.clone()];
+        let mut perm = base.clone();
+        perm.rotate_left(1);
+        pool.push(perm);
+        let mut rev = base.clone();
+        rev.reverse();
+        pool.push(rev);
+        pool.push((0..rank).map(|_| 1 + rng.below(hi) as usize).collect());
+        let mut cur: [Option<Vec<usize>>; 4] = [None, None, None, None];
+        let mut ops: Vec<String> = Vec::new();
+        let len = 6 + rng.below(14) as usize;
+        let mut n_cf = 0;
+        for step in 0..len {
+            let live: Vec<usize> = (0..4).filter(|&k| cur[k].is_some()).collect();
+            let kind = if live.is_empty() || (step < 2 && live.len() < 2) { 0 } else { rng.below(12) };
+            match kind {
+                0 => {
+                    let s = rng.below(4) as usize;
+                    let d = rng.pick(&pool).clone();
+                    ops.push(format!("mk {} {} {}", s, join(&d), rng.range_i64(-50, 50) * 10));
+                    cur[s] = Some(d);
+                }
+                1 | 2 | 3 if live.len() >= 2 => {
+                    let s = *rng.pick(&live);
+                    let r = loop {
+                        let r = *rng.pick(&live);
+                        if r != s {
+                            break r;
+                        }
+                    };
+                    ops.push(format!("cf {} {}", s, r));
+                    cur[s] = cur[r].clone();
+                    n_cf += 1;
+                }
+                1 | 2 | 3 | 4 => {
+                    let r = *rng.pick(&live);
+                    let s = rng.below(4) as usize;
+                    ops.push(format!("cl {} {}", s, r));
+                    cur[s] = cur[r].clone();
+                }
+                5 => {
+                    let s = *rng.pick(&live);
+                    let r = *rng.pick(&live);
+                    ops.push(format!("eq {} {}", s, r));
+                }
+                6 => {
+                    let s = *rng.pick(&live);
+                    ops.push(if rng.chance(1, 2) { format!("dims {}", s) } else { format!("dim {} {}", s, rng.below(rank as u64 + 1)) });
+                }
+                7 | 8 | 9 => {
+                    let s = *rng.pick(&live);
+                    // an index valid for the variable's current shape, for another pool shape, or slightly out of range
+                    let shape = if rng.chance(2, 3) { cur[s].clone().unwrap() } else { rng.pick(&pool).clone() };
+                    let mut j: Vec<usize> = shape.iter().map(|&d| rng.below(d as u64) as usize).collect();
+                    if rng.chance(1, 3) {
+                        let k = rng.below(rank as u64) as usize;
+                        j[k] = shape[k] + rng.below(2) as usize;
+                    }
+                    match kind {
+                        7 => ops.push(format!("get {} {}", s, join(&j))),
+                        8 => ops.push(format!("rd {} {}", s, join(&j))),
+                        _ => ops.push(format!("wr {} {} {}", s, join(&j), rng.range_i64(-9, 9))),
+                    }
+                }
+                10 => ops.push(format!("it {}", *rng.pick(&live))),
+                _ => ops.push(format!("w {}", *rng.pick(&live))),
+            }
+        }
+        for k in 0..4 {
+            if cur[k].is_some() {
+                ops.push(format!("dims {}", k));
+                ops.push(format!("it {}", k));
+            }
+        }
+        emit(format!("h {} ; {}", rank, ops.join(" ; ")));
+        st.bump("hist_random");
+        st.add("hist_random_clone_from_ops", n_cf);
     }
 }
 
